@@ -289,7 +289,9 @@ def isCopyMove : Op → Bool
 def excessCause (op : Op) (before : WorldObs) (what : String) : String :=
   if (what.splitOn recoveryKey).length > 1 then "refused-append-recovered" else
   match op with
-  | .create name => if ((superiors name).filter fun s => (find before s).isNone).length > 0 then "implicit-parents" else "limit-exceeded"
+  -- `State.Create` checks the limit for the named mailbox AND its missing superiors (model: `step … (.create parents)`):
+  -- exceeding the maximum through them is a regression of that repair, not a known finding
+  | .create name => if ((superiors name).filter fun s => (find before s).isNone).length > 0 then "create-parents-above-maximum" else "limit-exceeded"
   | .race _ => "check-outside-tx"
   | .kcreate _ => "limit-exceeded"
   | _ => if what.startsWith "uidnext" then "uid-above-maximum"
